@@ -376,7 +376,7 @@ inline void make_rs(Problem & P)
 inline std::vector<int> sizes()
 {
   if (mc::thorough()) return {1, 2, 3, 4, 5, 6, 7, 8, 16, 40};
-  return {1, 2, 3, 4, 5, 6};
+  return {1, 2, 3, 4, 5, 6, 7};  // 7: smallest shape exhibiting the recorded finding (numerically singular H, cond >= 1e16)
 }
 
 inline std::vector<Problem> make_problems()
